@@ -6,6 +6,8 @@ from ._lib import lib_run
 def run(tier, replay=None):
     cells = cxx.QUICK_CELLS if tier == "quick" else cxx.ALL_CELLS
     vs = []
+    skipped = [c for c in cells if cxx.cell_miscompiles_is_constant_evaluated(c)]
+    cells = [c for c in cells if c not in skipped]
     for cell in cells:
         for schema in (("lib_le",) if tier == "quick" else ("lib_le", "lib_be")):
             vs.append(libcheck.Variant("%s-%s" % (cxx.cell_name(cell), schema), cell,
@@ -18,6 +20,7 @@ def run(tier, replay=None):
          "element_types": ["char", "uint8"], "byte_types": ["char", "unsigned char"]},
         34,
         [{"state": "\"a\\0b\"", "op": "assign_string(\"b\", single)", "expected": "\"b\\0b\", returned iterator = begin()+1"}],
+        (["cell(s) %s skipped: the toolchain takes `if(<constexpr wrapper of std::is_constant_evaluated()>)` at run time (probe in vlib/cxx.py; clang 14 -std=c++2b if-consteval bug), so strlen() runs its constant-evaluation branch; not a defect of the code under test" % [cxx.cell_name(c) for c in skipped]] if skipped else []) +
         ["strlen() is not instantiated for uint8 arrays: it is ill-formed there (data() is handed to a const char* function); the property speaks of strings",
          "inputs longer than N violate the documented precondition and are not generated"],
         replay=replay)
